@@ -1508,7 +1508,19 @@ func (p *partition) sendAck(ack *client.Ack) {
 	if err != nil {
 		panic(err)
 	}
-	if err := p.srv.ncAcks.Publish(ack.AckInbox, data); err != nil {
+	p.publishAck(ack.AckInbox, data)
+}
+
+// publishAck publishes an ack to the given inbox. The inbox comes from the
+// published message, so it is not published to if it cannot be a NATS subject:
+// whitespace in it would corrupt the protocol stream and make the NATS server
+// drop the connection used for all acks.
+func (p *partition) publishAck(inbox string, data []byte) {
+	if !isValidSubject(inbox) {
+		p.srv.logger.Errorf("Not sending ack for partition %s: invalid ack inbox %q", p, inbox)
+		return
+	}
+	if err := p.srv.ncAcks.Publish(inbox, data); err != nil {
 		p.srv.logger.Errorf("Error sending ack for partition %s: %v", p, err)
 	}
 }
@@ -1537,9 +1549,7 @@ func (p *partition) sendTooLargeNack(msg *commitlog.Message) {
 	if err != nil {
 		panic(err)
 	}
-	if err := p.srv.ncAcks.Publish(ack.AckInbox, data); err != nil {
-		p.srv.logger.Errorf("Error sending ack for partition %s: %v", p, err)
-	}
+	p.publishAck(ack.AckInbox, data)
 }
 
 // replicationRequestLoop is a long-running loop which sends replication
